@@ -2,7 +2,7 @@
 consumer group, client, member) must not be passed to a parameter declared for a different kind."""
 import re
 from mir import walk, render, short
-from lib import strip_adaptors, is_user_call
+from lib import strip_adaptors, is_user_call, in_crate
 
 KIND_WORDS = [
     ('consumer_group', 'group'), ('group', 'group'), ('stream', 'stream'), ('topic', 'topic'), ('partition', 'partition'),
@@ -54,7 +54,7 @@ def check_calls(ctx, rep, rid, scope_prefixes, callee_prefix='server::'):
     """one obligation per (call site, id-kinded parameter) in functions whose def starts with one of scope_prefixes"""
     n = 0
     for d in sorted(ctx.facts.body_defs()):
-        if not any(d.startswith(p) for p in scope_prefixes):
+        if not any(in_crate(d, p) for p in scope_prefixes):
             continue
         raw = ctx.facts.raw_body(d)
         b = None
